@@ -175,7 +175,7 @@ def metadata_of(n):
     return Adt('Metadata', None, [n])
 
 
-@model(r'Path::metadata|std::fs::metadata::<.+>|Path::symlink_metadata|std::fs::symlink_metadata::<.+>')
+@model(r'Path::metadata|(std::fs::)?metadata::<.+>|Path::symlink_metadata|(std::fs::)?symlink_metadata::<.+>')
 def m_metadata(ex, c, a, m):
     r = osm(ex).lookup(a[0], follow='symlink_metadata' not in c)
     if r[0] == 'err':
